@@ -1,5 +1,7 @@
 SPECIFICATION Spec
-CONSTANT AllowD8 = TRUE
+CONSTANTS
+  AllowD8 = TRUE
+  HardOrder = TRUE
 CONSTRAINT Report
 POSTCONDITION PostCond
 CHECK_DEADLOCK FALSE
